@@ -1,7 +1,9 @@
 import Mimium.Model.Core
+import Mimium.Proofs.MirExample
 import Mimium.Props.C05
 import Mimium.Proofs.CoreSoundMachine
 import Mimium.Proofs.CoreCheckComplete
+import Mimium.Proofs.MirWfFn
 /-!
 # C03 — programs accepted by the type checker run without crashes or memory errors
 
@@ -50,6 +52,14 @@ first-order output type.
 * `C03_check_agree_decided`, `C03_check_output_first_order` — the side conditions are decided exactly.
 NOT proved here: completeness w.r.t. un-annotated `WellTyped` (a derivation may type two lambdas whose parameters share a
 name differently, or choose signatures the annotations do not name; the inference pre-pass is not verified — it need not be).
+
+**The MIR the compiler produced, checked per program** (`Model/Mir.lean`, `Model/MirWf.lean`; namespace `Mimium.Mir`):
+`wfFn P f cert` is a decidable SSA well-formedness of one MIR function (every register defined before use on every path, the
+`Phi` / `PhiSwitch` operand of the entered predecessor defined there, branch targets and fall-through merge blocks in range,
+upvalue operands of a closure defined where it is made); `drv_mir` evaluates it on every function of the MIR of every generated
+program.  `C03_mir_wf_no_stuck`: if every function of a program is `wfFn`, NO run of any function in the MIR semantics — any
+call depth, arguments, closure, globals, storage — ends in `undefReg` (a register read before it was defined) or `badBlock`
+(a jump to a block that does not exist); `C03_mir_wf_program_no_stuck`: the same for `Machine.init` and every sample.
 
 NOT proved: soundness of the REAL type checker / that the real checker accepts only `WellTyped` programs. That is
 observed, now in both directions: on every generated well-typed program and every near-miss mutant the verdict of the Lean
@@ -390,3 +400,57 @@ example : checkProg ⟨[], [("g", .tup [.num, .num])]⟩ exBadSites = none := by
 example : agreeB (calls exBadSites.dsp.body) = false := by decide
 
 end Mimium.Core
+
+namespace Mimium.Mir
+
+/-- A program all of whose MIR functions pass `wfFn`: no call of any function, at any depth and from any machine state,
+gets stuck on an undefined register or a bad block index (every other outcome — words, `unsupported`, the remaining `stuck`
+reasons, `fuel` — stays possible). -/
+theorem C03_mir_wf_no_stuck (P : Prog) (hwf : ∀ (g : Nat) (f : Fn), P.fns[g]? = some f → ∃ c, wfFn P f c = true)
+    (n g : Nat) (ws : List UInt64) (clo : Option Nat) (glob : Glob) (st : StateMachine.St) (tr : List Layout.Access) :
+    (∀ r, runFn P n g ws clo glob st tr ≠ .error (.undefReg r)) ∧ (∀ b, runFn P n g ws clo glob st tr ≠ .error (.badBlock b)) := by
+  have h := runFn_safe hwf n g ws clo glob st tr
+  exact ⟨fun r hr => (h _ hr).1 r rfl, fun b hb => (h _ hb).2 b rfl⟩
+
+/-- the executable whole-program predicate `wfProg` (certificates inferred by `inferWf`) is such a hypothesis, so neither the
+global initialisation nor any sample of a `wfProg` program gets stuck that way -/
+theorem C03_mir_wf_program_no_stuck (P : Prog) (hwf : wfProg P = true) (fuel : Nat) :
+    (∀ sr r, Machine.init fuel P sr ≠ .error (.undefReg r)) ∧ (∀ sr b, Machine.init fuel P sr ≠ .error (.badBlock b)) ∧
+    (∀ m now inputs r, Machine.step fuel P m now inputs ≠ .error (.undefReg r)) ∧
+    (∀ m now inputs b, Machine.step fuel P m now inputs ≠ .error (.badBlock b)) := by
+  have hall : ∀ (g : Nat) (f : Fn), P.fns[g]? = some f → ∃ c, wfFn P f c = true := by
+    intro g f hf
+    simp only [wfProg, List.all_eq_true] at hwf
+    exact ⟨inferWf f, hwf f (List.mem_of_getElem? hf)⟩
+  have hsafe := runFn_safe hall fuel
+  have hinit : ∀ sr, Safe (Machine.init fuel P sr) := by
+    intro sr
+    exact Safe.bind (hsafe _ _ _ _ _ _) (fun _ => Safe.ok _)
+  have hstep : ∀ m now inputs, Safe (Machine.step fuel P m now inputs) := by
+    intro m now inputs
+    unfold Machine.step
+    split
+    · exact Safe.stuck _
+    · exact Safe.bind (hsafe _ _ _ _ _ _) (fun _ => Safe.ok _)
+  exact ⟨fun sr r h => (hinit sr _ h).1 r rfl, fun sr b h => (hinit sr _ h).2 b rfl,
+         fun m now inputs r h => (hstep m now inputs _ h).1 r rfl, fun m now inputs b h => (hstep m now inputs _ h).2 b rfl⟩
+
+
+/-! ### non-vacuity on a real dump (`Proofs/MirExample.lean`), kernel-evaluated -/
+
+/-- both example programs are well formed (the F3 program too: its defect is the state cursor, not a register) -/
+example : wfProg exProg = true ∧ wfProg exStateInArms = true := by decide +kernel
+
+/-- hence neither its global initialisation nor any sample can end on an undefined register or a bad block -/
+example (fuel : Nat) (m : Machine) (now : UInt64) (inputs : List UInt64) (r : Nat) :
+    Machine.step fuel exProg m now inputs ≠ .error (.undefReg r) :=
+  (C03_mir_wf_program_no_stuck exProg (by decide +kernel) fuel).2.2.1 m now inputs r
+
+/-- a use before the definition is rejected: `dsp` of the example with its first `load` removed reads register 1 undefined -/
+example :
+    wfFn exProg (Fn.build "bad" none [1] [] (.fn []) 4 1 [[.bin .addf 2 (.reg 1) (.reg 0), .ret (.reg 2) 1]])
+      (inferWf (Fn.build "bad" none [1] [] (.fn []) 4 1 [[.bin .addf 2 (.reg 1) (.reg 0), .ret (.reg 2) 1]])) = false ∧
+    wfFn exProg (Fn.build "good" none [1] [] (.fn []) 4 1 [[.load 1 (.reg 0) 1, .bin .addf 2 (.reg 1) (.reg 0), .ret (.reg 2) 1]])
+      (inferWf (Fn.build "good" none [1] [] (.fn []) 4 1 [[.load 1 (.reg 0) 1, .bin .addf 2 (.reg 1) (.reg 0), .ret (.reg 2) 1]])) = true := by
+  decide +kernel
+end Mimium.Mir
